@@ -329,6 +329,13 @@ class Statement(object):
                 self.code_pkg.additional = NumericValue(length, size_hint=size_hint)
             return
 
+        if self.operand.value.is_multi_byte() or self.operand.value.is_multi_word():
+            try:
+                self.operand.value.fix_addresses(statements)
+            except (ValueTypeError, ZeroDivisionError) as error:
+                raise TranslationError(str(error), self)
+            return
+
         if self.operand.value.is_address_expression():
             self.code_pkg.additional = self.calculate_address_offset(self.operand.value, statements)
 
